@@ -668,11 +668,26 @@ Theorem mark_preserved sync s e k :
   mem_bytes k (rx_marked s) = true -> ends_owner k s e = false ->
   mem_bytes k (rx_marked (rx_step sync s e)) = true.
 Proof.
-  intros M N. destruct e as [keys|n|n|keys]; cbn [rx_step ends_owner] in *.
+  intros M N. destruct e as [keys|n|n|keys|keys]; cbn [rx_step ends_owner] in *; [| | | |exact M].
   - destruct sync; cbn [rx_marked]; [rewrite mem_app, M; apply orb_true_r | exact M].
   - destruct (nth_error (rx_pending s) n); cbn [rx_marked]; [rewrite mem_app, M; apply orb_true_r | exact M].
   - destruct (nth_error (rx_pending s) n); cbn [rx_marked]; [|exact M]. rewrite mem_unmark, M, N. reflexivity.
   - destruct sync; cbn [rx_marked]; [rewrite mem_app, M; apply orb_true_r | exact M].
+Qed.
+
+(* an OFFER answered without a free slot leaves the in-flight set exactly as it was (it starts no transfer, so it has
+   nothing to clear - in particular not the marks of OTHER pending transfers whose keys it happens to offer) *)
+Theorem rate_limited_offer_keeps_marks sync s keys :
+  rx_marked (rx_step sync s (EvOfferNoSlot keys)) = rx_marked s.
+Proof. reflexivity. Qed.
+
+(* the harness scenario: K accepted and pending; a rate-limited OFFER of K; then a version-1 OFFER of K: still in progress *)
+Theorem rate_limited_scenario k :
+  rx_accepted (rx_run false [EvOffer [k]; EvGoroutineRuns 0; EvOfferNoSlot [k]; EvOffer [k]]) = [[]; []; [k]] /\
+  rx_accepted (rx_run false [EvOfferV0 [k]; EvGoroutineRuns 0; EvOfferNoSlot [k]; EvOffer [k]]) = [[]; []; [k]].
+Proof.
+  unfold rx_run. cbn [fold_left rx_step rx_init rx_marked rx_pending rx_accepted filter mem_bytes negb app nth_error].
+  rewrite bytes_eqb_refl. cbn [orb negb filter]. split; reflexivity.
 Qed.
 
 (* the keys a version-0 transfer brings in are marked by its goroutine like any other: a later version-1 OFFER of such a key
